@@ -4,24 +4,28 @@ import re
 
 def crash_nontrivial(tok, res):
     # anything that reached a handler: accepted logins, storms, the witnesses, watchdog passes
-    return tok[0] in ("login", "negpool", "storm", "cstorm", "race6", "stun", "watch", "stat") or \
+    return tok[0] in ("login", "negpool", "storm", "cstorm", "race6", "stun", "watch", "stat", "wconn", "wstorm", "tear") or \
         (tok[0] == "msg" and tok[2] in ("NewProxy", "CloseProxy", "Ping", "NatHoleVisitor", "NatHoleClient",
                                         "NatHoleReport", "NewWorkConn", "NewVisitorConn", "Login"))
 
 
 def crash_class(res):
     if res.startswith("stat:"):
+        b = lambda n: "0" if n == 0 else ("1-9" if n < 10 else ("10-99" if n < 100 else "100+"))
+        m = re.search(r"proxyOK=(\d+),proxyRefused=(\d+).*natResp=(\d+).*workStarted=(\d+),workFrames=(\d+),udpMarker=(\d+),visitorOK=(\d+).*tearParked=(\d+)", res)
+        if m:
+            return ("stat(proxyOK %s, refused %s, natResp %s, work conns taken %s, frames on them %s, udp markers %s, visitors %s, "
+                    "teardowns parked %s)" % tuple(b(int(x)) for x in m.groups()))
         m = re.search(r"proxyOK=(\d+),proxyRefused=(\d+).*natResp=(\d+)", res)
         if m:
-            b = lambda n: "0" if n == 0 else ("1-9" if n < 10 else ("10-99" if n < 100 else "100+"))
             return "stat(proxyOK %s, refused %s, natResp %s)" % tuple(b(int(x)) for x in m.groups())
         return "stat"
-    return res[:64]
+    return res[:72]
 
 
 PROP = {
         "level": "other",
-        "gens": ["LockFacts"],
+        "gens": ["LockFacts", "NilFacts"],
         "theorems": [
             # 1. lock discipline over regenerated facts
             "Frp.C16.all_guarded_partial", "Frp.C16.unguarded_exact", "Frp.C16.all_guarded_status", "Frp.C16.all_guarded",
@@ -40,6 +44,14 @@ PROP = {
             "Frp.C16.unhandled_no_effect", "Frp.C16.handled_only_registered", "Frp.C16.bad_ends_session",
             "Frp.C16.dead_stays_dead", "Frp.C16.deliver_length", "Frp.C16.frame_confined", "Frp.C16.history_confined",
             "Frp.C16.firstMsg_total", "Frp.C16.dispatch_facts", "Frp.C16.every_type_handled_or_ignored",
+            # 3d. readers of work / visitor connections: pointer-typed message fields (regenerated NilFacts), udp work-connection reader
+            "Frp.C16.ptr_uses_guarded", "Frp.C16.ptr_sites_present", "Frp.C16.ok_use_never_kills", "Frp.C16.unguarded_deref_kills",
+            "Frp.C16.consume_total", "Frp.C16.forward_total", "Frp.C16.forwardUserOne_nil", "Frp.C16.udp_reader_step",
+            "Frp.C16.udp_reader_closed_stays", "Frp.C16.deliverW_confined", "Frp.C16.srvRun_alive", "Frp.C16.srvRun_work_keeps_ctls",
+            "Frp.C16.srvStep_ctl_keeps_works", "Frp.C16.srvStep_work_confined", "Frp.C16.frames_never_kill", "Frp.C16.unguarded_load_witness",
+            # 3e. RegisterWorkConn against the session's teardown
+            "Frp.C16.register_recover_never_panics", "Frp.C16.teardown_offer_safe", "Frp.C16.teardown_unrecovered_dies",
+            "Frp.C16.teardown_unrecovered_witness", "Frp.C16.register_recover_fact", "Frp.C16.teardown_safe_as_is",
             # 3c. discoverConn
             "Frp.C16.discover_safe_partial", "Frp.C16.discover_witness", "Frp.C16.discover_fixed",
             # 4. engine predicate
@@ -58,7 +70,18 @@ PROP = {
                 "real frpc against a scripted server sending every msg type (cstorm), a direct stress of nathole.Controller (race6) and a "
                 "flooding STUN peer (stun). The child runs without recover; the parent classifies exit / panic / fatal error by the first "
                 "frp frame of the dying goroutine, `hang` after 90 s, and `watch` = echo through the tunnel + fresh login. One op line of "
-                "a storm stands for hundreds of messages. Non-trivial = ops that reach a handler; `stat` lines carry what the server answered",
+                "a storm stands for hundreds of messages. Non-trivial = ops that reach a handler; `stat` lines carry what the server answered. "
+                "Work and visitor connections (eng_crash_work.go): `wconn` registers a tcp / udp / stcp / sudp / xtcp proxy on a fresh session (or "
+                "targets the real frpc's stcp / sudp proxy as a visitor), offers NewWorkConn, makes frps take one (user connection, datagram, "
+                "NewVisitorConn with the right key, NatHoleVisitor) and then speaks on the work connection and on the visitor connection: UDPPacket "
+                "frames with every combination of absent / null / zero / out-of-range / wrong-typed addresses and contents, Ping, every other "
+                "registered type, unregistered type bytes, bad lengths, raw bytes, plain and behind the encryption / compression wrappers; a marker "
+                "datagram proves the udp consumer got past the frames in front of it; `wstorm` does the same from 4-12 peers at once answering every "
+                "ReqWorkConn, half of them dropping the control connection mid-way; the scripted server of `cstorm` starts the real frpc's udp proxy "
+                "and feeds it the same frames. Teardown race: `tear` parks the session's worker at the verifhook gate worker.dispDone / "
+                "worker.drained / worker.beforeDone / ctl.beforeDel after dropping the control connection, offers 1-6 NewWorkConn for the run id "
+                "while it stands there, releases, offers once more after the removal (gate `none`: offers hammer the run id while the control "
+                "connection drops, 0-11 proxies widening the window); the Lean engine runs the forced schedule on the teardown model",
         "trusted": COMMON_TRUST + [
             "translator translate/gen_lockfacts.go (go/ast, syntactic): regenerates Frp/Gen/LockFacts.lean on every run - every access to "
             "the 24 designated map / member-list fields with the lock mode held at that statement (Lock/RLock/Unlock/RUnlock in statement "
@@ -69,8 +92,17 @@ PROP = {
             "pinned by hand from reading the code (Props/C16.lean closeOwners / sendOwners / helpers_pinned): the 14 close sites without a "
             "syntactic guard are in functions that run once per object; the 3 unrecovered sends are made by the goroutine that also closes; "
             "Routers.exist and visitor Manager.startVisitor are only called with the lock held (their call sites ARE checked)",
+            "translator translate/gen_nilfacts.go (go/ast, syntactic): regenerates Frp/Gen/NilFacts.lean on every run - the pointer- and map-typed "
+            "fields of the msg structs and every use of a pointer-typed one (UDPPacket.LocalAddr / RemoteAddr) in the files that name the struct, "
+            "classified (field load, *, method, argument, nil comparison, copy, other) with a guard flag (`if x != nil`, early exit on `x == nil`, "
+            "inside errors.PanicToError); a field handed to a local closure or a top-level function of the same package is followed into the "
+            "callee (depth 3). It does not type-check: it recognises the fields by name inside files that mention msg.UDPPacket, and it does not "
+            "follow the pointer through assignments to other variables (reported as kind `other`, which the Lean judgement rejects)",
+            "pinned by hand from the Go standard library (Props/C16.lean): (*net.UDPAddr).String tests its receiver for nil; "
+            "(*net.UDPConn).WriteToUDP returns errMissingAddress for a nil address",
             "models Frp/Model/Crash.lean (NewControl pool/capacity arithmetic, Dispatcher.readLoop step, first-message switch, discoverConn "
-            "buffer) written by hand; NewControl tied by newcontrol_source (source text) and by the engine's login ops; the handler tables by "
+            "buffer, udp work-connection reader + consumer, RegisterWorkConn against the worker's teardown steps) written by hand; the teardown "
+            "model is tied by register_recover_fact (the regenerated guard of the send in RegisterWorkConn) and by the gated `tear` ops; NewControl tied by newcontrol_source (source text) and by the engine's login ops; the handler tables by "
             "dispatch_facts; Go's `makechan` panics iff size < 0 (or above maxAlloc, unreachable: capacity <= maxPoolCount+10)",
             "exploration (obligations 3-4 of DESIGN 6 C16) is a search, not a proof: no crash found is not absence of crashes",
         ],
@@ -85,12 +117,15 @@ PROP = {
     }
 
 META = {
-        "engine": "lean+translate(LockFacts)+harness(crash)",
+        "engine": "lean+translate(LockFacts,NilFacts)+harness(crash)",
         "design_ref": "DESIGN.md §6 C16",
-        "technique": "go/ast extraction of lock states, channel close/send guards, handler tables and NewControl's allocation into Lean facts "
-                     "regenerated per run, judged by kernel-checked `decide`; small Lean models (pool capacity, dispatcher step, discover buffer) "
+        "technique": "go/ast extraction of lock states, channel close/send guards, handler tables, NewControl's allocation and the uses of "
+                     "pointer-typed message fields into Lean facts "
+                     "regenerated per run, judged by kernel-checked `decide`; small Lean models (pool capacity, dispatcher step, discover buffer, udp "
+                     "work-connection reader, RegisterWorkConn vs. teardown) "
                      "with theorems for all inputs/histories; totality by message storms against a real frps+frpc in a sacrificial child process "
-                     "with a watchdog tunnel",
+                     "with a watchdog tunnel; the peer also speaks on work and visitor connections, and session teardown is parked at verifhook gates "
+                     "while work connections arrive",
         "text": "Partial (proof obligations 1-2 as theorems, 3-4 as exploration). Theorems over facts regenerated from the source: every one of "
                 "the 147 accesses to the 24 shared tables is made under the table's own mutex in a sufficient mode, except exactly one "
                 "(nathole HandleVisitor pre-check, known finding); every close( is once/flag/select-guarded, local, or one of 14 pinned "
@@ -98,8 +133,16 @@ META = {
                 "(discoverConn.readLoop, known finding). Model theorems: the work-connection channel capacity is non-negative and <= "
                 "maxPoolCount+10 for every Login.PoolCount >= -10 and NEGATIVE for every PoolCount < -10 (known finding: frps dies), "
                 "non-negative for all inputs in the repaired variant; a frame of any kind changes only the session it arrived on, unknown or "
-                "malformed frames end that session only, unregistered types have no effect (all histories). Exploration: ~900 op lines "
-                "(thousands of messages) per quick run against a real frps/frpc in a child process, watchdog after every storm.",
+                "malformed frames end that session only, unregistered types have no effect (all histories). Work / visitor connections: every use "
+                "of a pointer-typed message field (regenerated: 9 uses of UDPPacket.LocalAddr / RemoteAddr in the two udp forwarders and the sudp "
+                "proxy) is nil-guarded, a nil-safe method, a nil-tolerant callee or a copy, hence no history of frames on control, udp work and "
+                "relayed connections - UDPPacket with any combination of absent addresses included - kills frps or touches another connection "
+                "(frames_never_kill, srvRun_work_keeps_ctls, srvStep_work_confined); one unguarded load would (unguarded_load_witness). Teardown: "
+                "with the deferred recover in RegisterWorkConn (regenerated fact) no interleaving of NewWorkConn offers with the worker's closing "
+                "steps kills frps (teardown_safe_as_is, all label orders); without it an offer between close(workConnCh) and close(doneCh) does, "
+                "whether or not doneCh is tested up front (teardown_unrecovered_dies). Exploration: ~660 op lines (thousands of messages, ~1500 "
+                "work connections, ~5000 frames on them, ~20 gated teardowns) per quick run against a real frps/frpc in a child process, watchdog "
+                "after every storm.",
         "note": "Three findings, each reproduced on the real code by the engine and kept behind a switch: C16.precheckLockIsFixed "
                 "(hooks/C16-fix-precheck-lock.patch), Crash.poolCountIsFixed (hooks/C16-fix-poolcount.patch), Crash.discoverIsFixed "
                 "(hooks/C16-fix-discover-close.patch). Trusted: Lean kernel; the syntactic extractor; the pinned single-owner tables; the "
